@@ -152,3 +152,306 @@ Proof.
       * intros Hj. apply C in Hj. destruct Hj as [Hj|[<-|Hj]]; [left; right; auto | left; left; auto | right; auto].
       * intros [[<-|Hj]|Hj]; apply C; [right; left; auto | left; auto | right; right; auto].
 Qed.
+
+(* ---------------- visit, containers marked too ----------------
+   The loop above is visit() as shipped: it remembers the objects it has yielded but
+   not the containers it has expanded.  On the finite trees of this model the yield is
+   the same, but a container shared n levels deep is expanded 2^n times and a container
+   that contains itself makes the loop run forever (neither can be expressed here).
+   The repaired runtime keeps ONE visited set for objects and containers (identities of
+   live Python objects are distinct) and expands each only the first time it is met. *)
+Fixpoint dfs2 (n : node) (vis : list nat) {struct n} : list nat * list nat :=
+  match n with
+  | Leaf _ => ([], vis)
+  | Cont i l =>
+      if mem i vis then ([], vis)
+      else (fix go (l : list node) (vis : list nat) : list nat * list nat :=
+              match l with
+              | [] => ([], vis)
+              | x :: l' => let '(o1, v1) := dfs2 x vis in let '(o2, v2) := go l' v1 in (o1 ++ o2, v2)
+              end) l (i :: vis)
+  | Obj i fs =>
+      if mem i vis then ([], vis)
+      else let '(o, v) :=
+         (fix go (l : list node) (vis : list nat) : list nat * list nat :=
+            match l with
+            | [] => ([], vis)
+            | x :: l' => let '(o1, v1) := dfs2 x vis in let '(o2, v2) := go l' v1 in (o1 ++ o2, v2)
+            end) fs (i :: vis) in (i :: o, v)
+  end.
+Fixpoint dfs2_list (l : list node) (vis : list nat) : list nat * list nat :=
+  match l with
+  | [] => ([], vis)
+  | x :: l' => let '(o1, v1) := dfs2 x vis in let '(o2, v2) := dfs2_list l' v1 in (o1 ++ o2, v2)
+  end.
+Lemma dfs2_cont i l vis : dfs2 (Cont i l) vis = if mem i vis then ([], vis) else dfs2_list l (i :: vis).
+Proof. reflexivity. Qed.
+Lemma dfs2_obj i fs vis : dfs2 (Obj i fs) vis =
+  if mem i vis then ([], vis) else let '(o, v) := dfs2_list fs (i :: vis) in (i :: o, v).
+Proof. reflexivity. Qed.
+Lemma dfs2_list_app a b vis :
+  dfs2_list (a ++ b) vis = let '(o1, v1) := dfs2_list a vis in let '(o2, v2) := dfs2_list b v1 in (o1 ++ o2, v2).
+Proof.
+  revert vis. induction a as [|x a IH]; intros vis; cbn.
+  - destruct (dfs2_list b vis). auto.
+  - destruct (dfs2 x vis) as [o1 v1]. rewrite IH. destruct (dfs2_list a v1) as [o2 v2].
+    destruct (dfs2_list b v2) as [o3 v3]. rewrite app_assoc. auto.
+Qed.
+
+Fixpoint visit_loop2 (fuel : nat) (stack : list node) (vis : list nat) (out : list nat) : option (list nat * list nat) :=
+  match fuel with
+  | 0 => match stack with [] => Some (out, vis) | _ => None end
+  | S fuel =>
+    match stack with
+    | [] => Some (out, vis)
+    | n :: st =>
+      match n with
+      | Leaf _ => visit_loop2 fuel st vis out
+      | Cont i l => if mem i vis then visit_loop2 fuel st vis out
+                    else visit_loop2 fuel (l ++ st) (i :: vis) out
+      | Obj i fs => if mem i vis then visit_loop2 fuel st vis out
+                    else visit_loop2 fuel (fs ++ st) (i :: vis) (out ++ [i])
+      end
+    end
+  end.
+
+Theorem visit2_is_dfs2 : forall fuel stack vis out,
+  sizes stack <= fuel ->
+  visit_loop2 fuel stack vis out = Some (let '(o, v) := dfs2_list stack vis in (out ++ o, v)).
+Proof.
+  induction fuel as [|fuel IH]; intros stack vis out Hf.
+  - destruct stack as [|n st]; cbn; [rewrite app_nil_r; auto|].
+    cbn in Hf. destruct n; cbn in Hf; lia.
+  - destruct stack as [|n st]; cbn [visit_loop2]; [cbn; rewrite app_nil_r; auto|].
+    cbn [sizes fold_right] in Hf. fold (sizes st) in Hf.
+    destruct n as [i|i l|i fs].
+    + rewrite IH by (cbn in Hf; lia). cbn. destruct (dfs2_list st vis). auto.
+    + rewrite size_cont in Hf. cbn [dfs2_list]. rewrite dfs2_cont. destruct (mem i vis).
+      * rewrite IH by lia. destruct (dfs2_list st vis). auto.
+      * rewrite IH by (rewrite sizes_app; lia). rewrite dfs2_list_app.
+        destruct (dfs2_list l (i :: vis)) as [o1 v1]. destruct (dfs2_list st v1) as [o2 v2]. auto.
+    + rewrite size_obj in Hf. cbn [dfs2_list]. rewrite dfs2_obj. destruct (mem i vis).
+      * rewrite IH by lia. destruct (dfs2_list st vis). auto.
+      * rewrite IH by (rewrite sizes_app; lia). rewrite dfs2_list_app.
+        destruct (dfs2_list fs (i :: vis)) as [o1 v1]. destruct (dfs2_list st v1) as [o2 v2].
+        rewrite <- !app_assoc. auto.
+Qed.
+
+(* every yielded identity is new, none is yielded twice, and the visited set only grows *)
+Lemma dfs2_fresh : forall k n vis, size n <= k ->
+  let '(o, v) := dfs2 n vis in (forall i, In i o -> ~ In i vis) /\ NoDup o /\ (forall i, In i o \/ In i vis -> In i v).
+Proof.
+  induction k as [|k IH]; intros n vis Hk; [destruct n; cbn in Hk; lia|].
+  assert (HL : forall l vis, sizes l <= k ->
+            let '(o, v) := dfs2_list l vis in (forall i, In i o -> ~ In i vis) /\ NoDup o /\ (forall i, In i o \/ In i vis -> In i v)).
+  { induction l as [|x l IHl]; intros vis0 Hl; cbn [dfs2_list].
+    - repeat split; [intros i [] | constructor | intros i [[]|H]; auto].
+    - cbn [sizes fold_right] in Hl. fold (sizes l) in Hl.
+      assert (1 <= size x) by (destruct x; cbn; lia).
+      pose proof (IH x vis0 ltac:(lia)) as H1. destruct (dfs2 x vis0) as [o1 v1].
+      pose proof (IHl v1 ltac:(lia)) as H2. destruct (dfs2_list l v1) as [o2 v2].
+      destruct H1 as (A1 & B1 & C1). destruct H2 as (A2 & B2 & C2). repeat split.
+      + intros i Hi. apply in_app_or in Hi. destruct Hi as [Hi|Hi]; auto.
+        intros Hv. apply (A2 i Hi). apply C1. auto.
+      + apply NoDup_app_intro; auto. intros i Hi1 Hi2. apply (A2 i Hi2). apply C1. auto.
+      + intros i [Hi|Hi]; apply C2.
+        * apply in_app_or in Hi. destruct Hi; [right; apply C1; auto | auto].
+        * right. apply C1. auto. }
+  assert (Hmem : forall i vis, mem i vis = false -> ~ In i vis).
+  { intros i vis0 Em Hin. unfold mem in Em. assert (existsb (Nat.eqb i) vis0 = true); [|congruence].
+    apply existsb_exists. exists i. split; auto. apply Nat.eqb_refl. }
+  destruct n as [i|i l|i fs].
+  - cbn. repeat split; [intros j [] | constructor | intros j [[]|H]; auto].
+  - rewrite dfs2_cont. rewrite size_cont in Hk. destruct (mem i vis) eqn:Em.
+    + repeat split; [intros j [] | constructor | intros j [[]|H]; auto].
+    + pose proof (HL l (i :: vis) ltac:(lia)) as H. destruct (dfs2_list l (i :: vis)) as [o v].
+      destruct H as (A & B & C). repeat split; auto.
+      * intros j Hj Hv. apply (A j Hj). right. auto.
+      * intros j [Hj|Hj]; apply C; [left; auto | right; right; auto].
+  - rewrite dfs2_obj. rewrite size_obj in Hk. destruct (mem i vis) eqn:Em.
+    + repeat split; [intros j [] | constructor | intros j [[]|H]; auto].
+    + pose proof (HL fs (i :: vis) ltac:(lia)) as H. destruct (dfs2_list fs (i :: vis)) as [o v].
+      destruct H as (A & B & C). pose proof (Hmem i vis Em) as Hni.
+      repeat split.
+      * intros j [<-|Hj]; auto. intros Hv. apply (A j Hj). right. auto.
+      * constructor; auto. intros Hi. apply (A i Hi). left. auto.
+      * intros j [[<-|Hj]|Hj]; apply C; [right; left; auto | left; auto | right; right; auto].
+Qed.
+
+(* nothing reachable is lost: every object of the forest has been yielded or had been visited before, PROVIDED an
+   identity stands for one node (two occurrences of a container with the same identity have the same contents) *)
+Fixpoint objs (n : node) : list nat :=
+  match n with
+  | Leaf _ => []
+  | Cont _ l => (fix go (l : list node) := match l with [] => [] | x :: l' => objs x ++ go l' end) l
+  | Obj i fs => i :: (fix go (l : list node) := match l with [] => [] | x :: l' => objs x ++ go l' end) fs
+  end.
+Fixpoint objsl (l : list node) : list nat := match l with [] => [] | x :: l' => objs x ++ objsl l' end.
+Lemma objs_cont i l : objs (Cont i l) = objsl l.
+Proof. reflexivity. Qed.
+Lemma objs_obj i l : objs (Obj i l) = i :: objsl l.
+Proof. reflexivity. Qed.
+
+Section Complete.
+Variable sub : nat -> list node.          (* what the identity of a container or object stands for: its children *)
+Fixpoint wf (n : node) : Prop :=
+  match n with
+  | Leaf _ => True
+  | Cont i l | Obj i l => l = sub i /\ (fix all (l : list node) : Prop := match l with [] => True | x :: l' => wf x /\ all l' end) l
+  end.
+Fixpoint wfl (l : list node) : Prop := match l with [] => True | x :: l' => wf x /\ wfl l' end.
+Fixpoint ids (n : node) : list nat :=
+  match n with
+  | Leaf _ => []
+  | Cont j l | Obj j l => j :: (fix go (l : list node) := match l with [] => [] | x :: l' => ids x ++ go l' end) l
+  end.
+Fixpoint idsl (l : list node) : list nat := match l with [] => [] | x :: l' => ids x ++ idsl l' end.
+Definition occurs (i : nat) (n : node) : Prop := In i (ids n).
+Definition occursl (i : nat) (l : list node) : Prop := In i (idsl l).
+Lemma wf_cont i l : wf (Cont i l) = (l = sub i /\ wfl l).
+Proof. reflexivity. Qed.
+Lemma wf_obj i l : wf (Obj i l) = (l = sub i /\ wfl l).
+Proof. reflexivity. Qed.
+Lemma occurs_cont i j l : occurs i (Cont j l) = (j = i \/ occursl i l).
+Proof. reflexivity. Qed.
+Lemma occurs_obj i j l : occurs i (Obj j l) = (j = i \/ occursl i l).
+Proof. reflexivity. Qed.
+Lemma occursl_cons i x l : occursl i (x :: l) <-> occurs i x \/ occursl i l.
+Proof. unfold occursl, occurs. cbn [idsl]. apply in_app_iff. Qed.
+
+(* a node is bigger than anything below it: an identity cannot occur below itself *)
+Lemma occurs_size i : forall k n, size n <= k -> wf n -> occurs i n -> S (sizes (sub i)) <= size n.
+Proof.
+  induction k as [|k IH]; intros n Hk Hw Ho; [destruct n; cbn in Hk; lia|].
+  assert (HL : forall l, sizes l <= k -> wfl l -> occursl i l -> S (sizes (sub i)) <= sizes l).
+  { induction l as [|x l IHl]; intros Hl Hwl Hol; [contradiction|].
+    cbn [sizes fold_right] in *. fold (sizes l) in *. destruct Hwl as (Hx & Hl'). apply occursl_cons in Hol. destruct Hol as [Hox|Hol'].
+    - assert (1 <= size x) by (destruct x; cbn; lia). pose proof (IH x ltac:(lia) Hx Hox). lia.
+    - pose proof (IHl ltac:(lia) Hl' Hol'). lia. }
+  destruct n as [j|j l|j l]; [contradiction| |].
+  - rewrite wf_cont in Hw. rewrite occurs_cont in Ho. rewrite size_cont in *. destruct Hw as (-> & Hwl).
+    destruct Ho as [<- | Ho]; [lia|]. pose proof (HL (sub j) ltac:(lia) Hwl Ho). lia.
+  - rewrite wf_obj in Hw. rewrite occurs_obj in Ho. rewrite size_obj in *. destruct Hw as (-> & Hwl).
+    destruct Ho as [<- | Ho]; [lia|]. pose proof (HL (sub j) ltac:(lia) Hwl Ho). lia.
+Qed.
+Lemma occursl_size i : forall l, wfl l -> occursl i l -> S (sizes (sub i)) <= sizes l.
+Proof.
+  induction l as [|x l IH]; intros Hw Ho; [contradiction|]. cbn [sizes fold_right]. fold (sizes l).
+  destruct Hw as (Hx & Hl). apply occursl_cons in Ho. destruct Ho as [Ho|Ho].
+  - pose proof (occurs_size i (size x) x (le_n _) Hx Ho). lia.
+  - pose proof (IH Hl Ho). lia.
+Qed.
+Lemma acyclic i : wfl (sub i) -> ~ occursl i (sub i).
+Proof. intros Hw Ho. pose proof (occursl_size i (sub i) Hw Ho). lia. Qed.
+
+Definition closed (vis P : list nat) : Prop := forall i, In i vis -> ~ In i P -> incl (objsl (sub i)) vis.
+
+Lemma dfs2_list_grows : forall l vis, let '(o, v) := dfs2_list l vis in forall i, In i vis -> In i v.
+Proof.
+  induction l as [|y l IH]; intros vis; cbn [dfs2_list]; auto.
+  pose proof (dfs2_fresh (size y) y vis (le_n _)) as Fy. destruct (dfs2 y vis) as [oy vy].
+  specialize (IH vy). destruct (dfs2_list l vy) as [o2 v2]. destruct Fy as (_ & _ & Cy).
+  intros i Hi. apply IH. apply Cy. auto.
+Qed.
+Lemma mem_In i vis : mem i vis = true -> In i vis.
+Proof. unfold mem. intros Em. apply existsb_exists in Em. destruct Em as (j & Hj & Ej). apply Nat.eqb_eq in Ej. subst j. auto. Qed.
+
+Lemma dfs2_complete : forall k n vis P, size n <= k -> wf n -> closed vis P -> (forall i, In i P -> ~ occurs i n) ->
+  let '(o, v) := dfs2 n vis in incl (objs n) v /\ closed v P.
+Proof.
+  induction k as [|k IH]; intros n vis P Hk Hw Hc HP; [destruct n; cbn in Hk; lia|].
+  assert (HL : forall l vis P, sizes l <= k -> wfl l -> closed vis P -> (forall i, In i P -> ~ occursl i l) ->
+            let '(o, v) := dfs2_list l vis in incl (objsl l) v /\ closed v P).
+  { induction l as [|x l IHl]; intros vis0 P0 Hl Hwl Hc0 HP0; cbn [dfs2_list objsl].
+    - split; [intros j []|exact Hc0].
+    - cbn [sizes fold_right] in Hl. fold (sizes l) in Hl. destruct Hwl as (Hx & Hwl').
+      assert (1 <= size x) by (destruct x; cbn; lia).
+      pose proof (IH x vis0 P0 ltac:(lia) Hx Hc0 (fun i Hi Ho => HP0 i Hi (proj2 (occursl_cons i x l) (or_introl Ho)))) as H1.
+      destruct (dfs2 x vis0) as [o1 v1]. destruct H1 as (A1 & C1).
+      pose proof (IHl v1 P0 ltac:(lia) Hwl' C1 (fun i Hi Ho => HP0 i Hi (proj2 (occursl_cons i x l) (or_intror Ho)))) as H2.
+      pose proof (dfs2_list_grows l v1) as F2.
+      destruct (dfs2_list l v1) as [o2 v2]. destruct H2 as (A2 & C2). split; auto.
+      intros j Hj. apply in_app_or in Hj. destruct Hj as [Hj|Hj]; auto. }
+  (* a node (container or object) with identity i and children sub i, not yet visited *)
+  assert (Node : forall i, sizes (sub i) <= k -> wfl (sub i) -> (forall j, In j P -> ~ occursl j (sub i)) ->
+            let '(o, v) := dfs2_list (sub i) (i :: vis) in incl (objsl (sub i)) v /\ closed v P /\ In i v).
+  { intros i Hs Hwl HPl.
+    assert (Hc' : closed (i :: vis) (i :: P)).
+    { intros j [<-|Hj] Hn; [exfalso; apply Hn; left; auto|].
+      intros x Hx. right. apply (Hc j Hj (fun H => Hn (or_intror H))). exact Hx. }
+    assert (HP' : forall j, In j (i :: P) -> ~ occursl j (sub i)).
+    { intros j [<-|Hj]; [apply acyclic; auto | auto]. }
+    pose proof (HL (sub i) (i :: vis) (i :: P) Hs Hwl Hc' HP') as H.
+    pose proof (dfs2_list_grows (sub i) (i :: vis)) as G.
+    destruct (dfs2_list (sub i) (i :: vis)) as [o v]. destruct H as (A & C). repeat split; auto.
+    - intros j Hj Hn. destruct (Nat.eq_dec j i) as [->|Hne]; [exact A|].
+      apply C; auto. intros [E|Hin]; [congruence | auto].
+    - apply G. left. auto. }
+  destruct n as [i|i l|i l].
+  - cbn. split; [intros j []|exact Hc].
+  - rewrite dfs2_cont. rewrite wf_cont in Hw. rewrite size_cont in Hk. destruct Hw as (-> & Hwl).
+    rewrite objs_cont. destruct (mem i vis) eqn:Em.
+    + split; auto. apply Hc; [apply mem_In; auto|]. intros Hi. apply (HP i Hi). rewrite occurs_cont. auto.
+    + pose proof (Node i ltac:(lia) Hwl (fun j Hj Ho => HP j Hj ltac:(rewrite occurs_cont; auto))) as H.
+      destruct (dfs2_list (sub i) (i :: vis)) as [o v]. destruct H as (A & C & _). auto.
+  - rewrite dfs2_obj. rewrite wf_obj in Hw. rewrite size_obj in Hk. destruct Hw as (-> & Hwl).
+    rewrite objs_obj. destruct (mem i vis) eqn:Em.
+    + split; auto. intros j [<-|Hj]; [apply mem_In; auto|].
+      apply (Hc i); [apply mem_In; auto| |exact Hj]. intros Hi. apply (HP i Hi). rewrite occurs_obj. auto.
+    + pose proof (Node i ltac:(lia) Hwl (fun j Hj Ho => HP j Hj ltac:(rewrite occurs_obj; auto))) as H.
+      destruct (dfs2_list (sub i) (i :: vis)) as [o v]. destruct H as (A & C & Hi). split; auto.
+      intros j [<-|Hj]; auto.
+Qed.
+
+(* what enters the visited set is either yielded or the identity of a container *)
+Fixpoint conts (n : node) : list nat :=
+  match n with
+  | Leaf _ => []
+  | Cont j l => j :: (fix go (l : list node) := match l with [] => [] | x :: l' => conts x ++ go l' end) l
+  | Obj _ l => (fix go (l : list node) := match l with [] => [] | x :: l' => conts x ++ go l' end) l
+  end.
+Fixpoint contsl (l : list node) : list nat := match l with [] => [] | x :: l' => conts x ++ contsl l' end.
+Lemma dfs2_visited : forall k n vis, size n <= k ->
+  let '(o, v) := dfs2 n vis in forall i, In i v -> In i o \/ In i vis \/ In i (conts n).
+Proof.
+  induction k as [|k IH]; intros n vis Hk; [destruct n; cbn in Hk; lia|].
+  assert (HL : forall l vis, sizes l <= k ->
+            let '(o, v) := dfs2_list l vis in forall i, In i v -> In i o \/ In i vis \/ In i (contsl l)).
+  { induction l as [|x l IHl]; intros vis0 Hl; cbn [dfs2_list contsl]; auto.
+    cbn [sizes fold_right] in Hl. fold (sizes l) in Hl. assert (1 <= size x) by (destruct x; cbn; lia).
+    pose proof (IH x vis0 ltac:(lia)) as H1. destruct (dfs2 x vis0) as [o1 v1].
+    pose proof (IHl v1 ltac:(lia)) as H2. destruct (dfs2_list l v1) as [o2 v2].
+    intros i Hi. destruct (H2 i Hi) as [A|[A|A]].
+    - left. apply in_or_app. auto.
+    - destruct (H1 i A) as [B|[B|B]]; [left; apply in_or_app; auto | auto | right; right; apply in_or_app; auto].
+    - right. right. apply in_or_app. auto. }
+  destruct n as [i|i l|i l].
+  - cbn. auto.
+  - rewrite dfs2_cont. rewrite size_cont in Hk. destruct (mem i vis); [auto|].
+    pose proof (HL l (i :: vis) ltac:(lia)) as H. destruct (dfs2_list l (i :: vis)) as [o v].
+    intros j Hj. change (conts (Cont i l)) with (i :: contsl l). destruct (H j Hj) as [A|[[<-|A]|A]].
+    + left. exact A.
+    + right. right. left. reflexivity.
+    + right. left. exact A.
+    + right. right. right. exact A.
+  - rewrite dfs2_obj. rewrite size_obj in Hk. destruct (mem i vis); [auto|].
+    pose proof (HL l (i :: vis) ltac:(lia)) as H. destruct (dfs2_list l (i :: vis)) as [o v].
+    intros j Hj. change (conts (Obj i l)) with (contsl l). destruct (H j Hj) as [A|[[<-|A]|A]].
+    + left. right. exact A.
+    + left. left. reflexivity.
+    + right. left. exact A.
+    + right. right. exact A.
+Qed.
+
+(* from an empty visited set: every object of the tree is yielded (identities of containers and of objects are
+   distinct: they are live Python objects) *)
+Theorem visit2_complete : forall n, wf n -> (forall i, In i (objs n) -> ~ In i (conts n)) ->
+  forall i, In i (objs n) -> In i (fst (dfs2 n [])).
+Proof.
+  intros n Hw Hdis i Hi.
+  pose proof (dfs2_complete (size n) n [] [] (le_n _) Hw (fun j Hj => False_ind _ Hj) (fun j Hj => False_ind _ Hj)) as H.
+  pose proof (dfs2_visited (size n) n [] (le_n _)) as V.
+  destruct (dfs2 n []) as [o v]. destruct H as (A & _). cbn [fst].
+  destruct (V i (A i Hi)) as [B|[[]|B]]; auto. exfalso. exact (Hdis i Hi B).
+Qed.
+End Complete.
